@@ -9,6 +9,10 @@ point and its locals n / repeat / sent / frame / cache, `_loop_no`; terminal siz
 reference model state and "fault already used".  `guard_cfg` checks the merging: enumeration of *all*
 histories to a small depth must give the same states and the same violation signatures.
 
+In `pipe` configurations the fault menu of every draw() additionally holds a *persistent* standard-output
+failure: the k-th write/flush of the draw and every later one raise BrokenPipeError (or ValueError of a
+closed stream), for every k - clean-up code that writes must not keep the rest of the clean-up from running.
+
 Operations: format(spec) / str / draw still / draw animated (repeat 1, 2; repeat=-1 cut by Ctrl-C at a
 frame delay; virtual stdout + clock) / draw with an invalid repeat, cached or style argument /
 ImageIterator(...) / next / seek(p) / close / drop + gc.collect() / image.close / image.seek /
@@ -95,13 +99,36 @@ class Runaway(BaseException):
     """An animated draw() with a finite repeat count that does not come to an end (reported as a violation)."""
 
 
+STDOUT_KINDS = {
+    "BrokenPipe": lambda: BrokenPipeError(32, "Broken pipe"),
+    "ClosedStdout": lambda: ValueError("I/O operation on closed file."),
+}
+DRAW_OPS = ("draw_still", "draw_anim", "draw_int")
+
+
 class KStdout(world.VStdout):
+    """Virtual stdout; `broken_at = n` makes the n-th write/flush *and every later one* raise `broken_exc()`
+    (a pipe whose reader went away, a closed stream) - the persistent fault of the draw() operations."""
     LIMIT = 400
+    broken_at = None
+    broken_exc = None
+    broke = False
+
+    def _broken(self):
+        if self.broken_at is not None and self.npoints + 1 >= self.broken_at:
+            self.npoints += 1
+            self.broke = True
+            raise self.broken_exc()
 
     def write(self, s):
         if self.npoints > self.LIMIT:
             raise Runaway(f"draw() still writing after {self.LIMIT} writes/flushes")
+        self._broken()
         return super().write(s)
+
+    def flush(self):
+        self._broken()
+        return super().flush()
 
     def _deliver(self, s):      # output content is C06's business; keep nothing
         pass
@@ -300,7 +327,8 @@ def execute(cfg, hist, col, report_last_only=True, base_leaks=None, fresh=False)
     S.hist = hist
     S.points = []
     T.reset()
-    so = KStdout(None, True, None, record=False)
+    so = S.so = KStdout(None, True, None, record=False)
+    S.so_points = 0
     S.clock = KClock(so)
     ident, clsname, _ = STYLES[cfg["style"]]
     enter_world(ident, so, S.clock, fresh)
@@ -333,6 +361,7 @@ def execute(cfg, hist, col, report_last_only=True, base_leaks=None, fresh=False)
         S.canon = None if S.stop else canon(S)
         S.enabled = [] if S.stop else enabled_ops(S)
         S.points_last = list(S.points)
+        S.so_points_last = S.so_points
         S.in_sweep = True
         # closing sweep: close what is still live, drop the image, everything must be back at baseline
         S.report = True
@@ -460,7 +489,12 @@ def apply_op(S, op, fault):
     nrec0 = len(T.records)
     if not S.in_sweep:
         S.leaks_last = set()        # ordinals of the opens *this* operation leaves behind without a fault
-    T.begin_op(label, tuple(fault) if fault else None)
+    so = S.so
+    so_p0 = so.npoints
+    pipe = fault if fault and fault[1] in STDOUT_KINDS else None
+    if pipe:        # persistent stdout failure from the k-th write/flush of this operation on
+        so.broken_at, so.broken_exc, so.broke = so_p0 + pipe[0], STDOUT_KINDS[pipe[1]], False
+    T.begin_op(label, tuple(fault) if fault and not pipe else None)
     ret = None
     exc_type = exc_text = None
     injected = False
@@ -477,7 +511,11 @@ def apply_op(S, op, fault):
         del e
     finally:
         T.end_op()
+        so.broken_at = None
     fired = T.fired
+    if pipe and so.broke:
+        fired = (f"stdout:{pipe[1]}", "")
+    S.so_points = so.npoints - so_p0
     S.points = list(T.points)
     ctx = dict(ret=ret, exc=exc_type, exc_text=exc_text, fired=fired, injected=injected, fault=fault,
                size_before=size_before, nrec0=nrec0, label=label)
@@ -924,6 +962,20 @@ def fault_kinds(cfg, step):
     return ("OSError",)
 
 
+def fault_trials(cfg, op, s):
+    """The fault menu of one operation, from its fault-free run *s*: every PIL call index x kind, and for the
+    draw operations of a `pipe` configuration every stdout write/flush index x persistent failure kind."""
+    out = []
+    for k, (stp, _line) in enumerate(s.points_last, 1):
+        for kind in fault_kinds(cfg, stp):
+            out.append([k, kind])
+    if cfg.get("pipe") and op[0] in DRAW_OPS:
+        for k in range(1, s.so_points_last + 1):
+            for kind in cfg["pipe"]:
+                out.append([k, kind])
+    return out
+
+
 def explore_cfg(cfg, col):
     depth = cfg["depth"]
     s0 = execute(cfg, [], col, fresh=True)
@@ -959,10 +1011,14 @@ def explore_cfg(cfg, col):
                     base_leaks = s.leaks_last or ()
                     if not fault_used and cfg["faults"] and s.canon is not None:
                         # (a fault-free run that already broke the property is not varied further)
-                        for k, (stp, _line) in enumerate(s.points_last, 1):
-                            for kind in fault_kinds(cfg, stp):
-                                trials.append([k, kind])
+                        trials.extend(fault_trials(cfg, op, s))
+                        if cfg.get("pipe") and op[0] in DRAW_OPS:
+                            col.max("stdout_points_per_draw", s.so_points_last)
                     col.max("fault_points_per_op", len(s.points_last))
+                elif fault[1] in STDOUT_KINDS:
+                    col.inc("faulted_executions")
+                    col.inc("persistent_stdout_fault_executions")
+                    col.add_distinct(("fault", op_label(op), "stdout", fault[0], fault[1], cfg["style"], cfg["src"]))
                 elif s.points_last and len(s.points_last) >= fault[0]:
                     col.inc("faulted_executions")
                     col.add_distinct(("fault", op_label(op), s.points_last[fault[0] - 1][0], fault[1], cfg["style"],
@@ -1007,11 +1063,9 @@ def guard_cfg(cfg, col):
             n += 1
             runs = [(None, s)]
             if not fault_used and cfg["faults"] and s.canon is not None:
-                for k, (stp, _l) in enumerate(s.points_last, 1):
-                    for kind in fault_kinds(cfg, stp):
-                        runs.append(([k, kind], execute(cfg, h + [[op, [k, kind]]], ucol,
-                                                         base_leaks=s.leaks_last or ())))
-                        n += 1
+                for flt in fault_trials(cfg, op, s):
+                    runs.append((flt, execute(cfg, h + [[op, flt]], ucol, base_leaks=s.leaks_last or ())))
+                    n += 1
             for fault, r in runs:
                 if r.canon is not None:
                     states.add(r.canon)
@@ -1168,13 +1222,13 @@ def build_cfgs(tier):
     cfgs = []
 
     def add(src, style, size0, repeat, spec, cached, depth, maxit=1, faults=True, alphabet=None, all_kinds=False,
-            guard=0):
+            guard=0, pipe=()):
         a = dict(sizes=("A", "D"))
         a.update(alphabet or {})
         c = dict(src=src, style=style, size0=size0, repeat=repeat, spec=spec, cached=cached, depth=depth,
-                 maxit=maxit, faults=faults, alphabet=a, all_kinds=all_kinds, guard=guard)
+                 maxit=maxit, faults=faults, alphabet=a, all_kinds=all_kinds, guard=guard, pipe=tuple(pipe))
         c["id"] = (f"{src}|{style}|{size0}|r{repeat}|{spec}|c{cached}|d{depth}|i{maxit}|f{int(faults)}"
-                   + (f"|guard{guard}" if guard else ""))
+                   + (f"|guard{guard}" if guard else "") + ("|pipe" if pipe else ""))
         cfgs.append(c)
 
     anim_srcs = ["file:gif", "file:apng", "file:apng-rgb", "pil:gif", "mem:gif", "url:gif"]
@@ -1213,6 +1267,11 @@ def build_cfgs(tier):
                 add(src, style, size0, rep, SPECS[style][0], cached, depth=7, faults=False,
                     alphabet=dict(sizes=("A",), draw_anim=(), draw_bad=(), img_seek=(), only_iter=True,
                                   seek=(K.N_FRAMES[src.split(":")[1]] - 1,), terms=("S", "L")))
+            # standard output that fails for good from some write/flush of a draw on (closed pipe): the draw fails,
+            # but the current frame, the size setting and every file are as after any other draw
+            for src, rep, cached in (("file:gif", 1, False), ("pil:gif", 2, True), ("url:gif", 2, False)):
+                add(src, style, "A", rep, SPECS[style][0], cached, depth=2, pipe=("BrokenPipe",),
+                    alphabet=dict(sizes=("D",), draw_anim=(rep,), draw_int=(2,), draw_bad=(), seek=()))
             # sizes that do not fit the terminal: refused draws must leave nothing open, size and frame untouched
             for src, size0, sizes in (("file:gif", "W", ("A", "H")), ("url:gif", "H", ("A", "W")),
                                      ("file:png", "A", ("W", "H")), ("pil:gif", "W", ("H",))):
@@ -1264,6 +1323,13 @@ def build_cfgs(tier):
                         add(src, style, size0, rep, specs[0], cached, depth=8, faults=False,
                             alphabet=dict(sizes=("A", size0), draw_anim=(), draw_bad=(), img_seek=(), only_iter=True,
                                           seek=(nf - 1,), terms=("S", "L")))
+            # (T3c) persistently failing standard output from every write/flush index of every draw on
+            for src in anim_srcs + ["file:png", "url:png"]:
+                for rep, cached, size0 in ((1, False, "A"), (2, True, "D")):
+                    if src.endswith("png") and rep == 2:
+                        continue
+                    add(src, style, size0, rep, specs[0], cached, depth=3, pipe=("BrokenPipe", "ClosedStdout"),
+                        alphabet=dict(sizes=("A", "D"), draw_anim=(rep,), draw_int=(2,), draw_bad=(), seek=(0,)))
             # (T4) two concurrent iterators on one image
             for src in ("file:gif", "pil:gif"):
                 add(src, style, "A", 2, specs[0], True, depth=6, maxit=2, faults=False,
